@@ -16,6 +16,7 @@ pub mod api;
 pub mod xbuild;
 pub mod indcheck;
 pub mod mrefs;
+pub mod tokfmt;
 #[cfg(feature = "xcheck")]
 pub mod srx;
 
